@@ -4,6 +4,7 @@ package main
 
 import (
 	"fmt"
+	"go/token"
 	"go/types"
 	"strconv"
 	"strings"
@@ -84,8 +85,8 @@ func registerIntrinsics(e *Engine) {
 		return int64(cap(cur))
 	})
 	reg("(*strings.Builder).Grow", func(ex *Exec, fn *ssa.Function, a []Value) Value {
-		n := ex.concreteInt(a[1], types.Typ[types.Int])
-		if n < 0 {
+		neg := ex.binop(token.LSS, types.Typ[types.Int], a[1], int64(0))
+		if ex.branch(neg) {
 			panic(&goPanic{val: Iface{T: types.Typ[types.String], V: "strings.Builder.Grow: negative count"}})
 		}
 		builderBuf(ex, a[0])
@@ -207,6 +208,7 @@ func registerIntrinsics(e *Engine) {
 	reg("(*sync.RWMutex).RUnlock", func(ex *Exec, fn *ssa.Function, a []Value) Value { return ex.mutexOp(a[0].(Ptr), false) })
 
 	registerVerif(e, reg)
+	registerTok(e, reg)
 }
 
 func concStr(v Value) (string, bool) { s, ok := v.(string); return s, ok }
